@@ -6,6 +6,7 @@ import TongoProofs.Lemmas.PoolSMSelect
 import TongoProofs.Lemmas.PoolSMLive
 import TongoProofs.Lemmas.PoolSMTimer
 import TongoProofs.Lemmas.PoolSMFairExample
+import TongoProofs.Lemmas.PoolSMWake
 /-! Property C13 — the connection pool picks a healthy, current server and its waits never hang.
 Property theorems only (helper lemmas live in TongoProofs/Lemmas/PoolSelect.lean, PoolSM*.lean).
 
@@ -411,12 +412,14 @@ theorem publish_not_dropped (v : Variant) (s s' : State) (a : Action) (j : Nat) 
   · simp only [PoolSM.step, hx, hpc]
     split <;> simp_all
 
-/-- **eventually_notified** (repaired code): nothing notifySubscribers offers is lost. If a head `m ≥ target` has
+/-- **offered_head_not_lost** (called `eventually_notified` in the design; renamed because it is conditional on a head
+having been OFFERED — that the head of the best connection is offered at all is `no_lost_wakeup`).
+Nothing notifySubscribers offers is lost. If a head `m ≥ target` has
 been offered to a waiter that is still in its select, then a head `≥ target` is in its channel, or `Run` is between
 its two selects about to put one there into the (empty) channel — so the waiter's receive case is, or is about to
 be, ready, and that receive decides `ok` (`wait_outcomes`). The drop-on-full variant
 `select { case ch <- v: default: }` does NOT have this property (it keeps the oldest head). -/
-theorem eventually_notified (v : Variant) (s : State) (hr : Reachable v s) (i : Nat) (w : Waiter)
+theorem offered_head_not_lost (v : Variant) (s : State) (hr : Reachable v s) (i : Nat) (w : Waiter)
     (hw : s.waiters[i]? = some w) (hsel : w.pc = .sel) (m : Nat) (hoff : w.offered = some m) (hm : w.target ≤ m) :
     (∃ h ∈ w.buf, w.target ≤ h) ∨
     (∃ sw h h' todo, s.run = .nPut sw h h' i todo ∧ w.target ≤ h' ∧ w.buf = []) := by
@@ -434,6 +437,77 @@ theorem eventually_notified (v : Variant) (s : State) (hr : Reachable v s) (i : 
     · cases hc
   · have := hO.selLow i w hw hsel h hmem
     omega
+
+/-- **no_lost_wakeup** (repaired code, every reachable state, every interleaving): if a waiter is registered and in
+its select and the best connection is at or beyond its target, then a head `≥ target`
+* is in its channel, or is carried by `Run` for that channel, or is being handed out (by notifySubscribers or by the
+  refresh that switched the choice) with this waiter not served yet, or
+* is still on its way for the best connection: stored by a SetMasterHead caller that has not published yet, in
+  `masterHeadUpdatedCh`, or just received by `Run`.
+This is the missing link before `wait_success_spec`: "the best connection reports a head ≥ target while the waiter
+is subscribed" implies the premise of `wait_success_spec` now or after finitely many steps of the pipeline
+(`publish_not_dropped`, `no_deadlock`). Needs all of: subscribe in one critical section (`subscribe_atomic`),
+publication never dropped, ids starting at 1 and unique (`InvR`), one snapshot per refresh and the notification on a
+switch; without the latter it is false (`lost_wakeup_switch_witness`). -/
+theorem no_lost_wakeup (s : State) (hr : Reachable fixed s) (i : Nat) (w : Waiter) (c : Nat)
+    (hw : s.waiters[i]? = some w) (hsel : w.pc = .sel) (hreg : w.wid ≠ 0) (hb : s.best = some c)
+    (hle : w.target ≤ s.heads.getD c 0) :
+    (∃ h ∈ w.buf, w.target ≤ h) ∨
+    (∃ sw h h' todo, s.run = .nPut sw h h' i todo ∧ w.target ≤ h') ∨
+    (∃ sw h todo, s.run = .nLoop sw h todo ∧ i ∈ todo ∧ w.target ≤ h) ∨
+    (∃ sw h h' x todo, s.run = .nPut sw h h' x todo ∧ i ∈ todo ∧ w.target ≤ h) ∨
+    (∃ (j : Nat) (x : Setter), s.setters[j]? = some x ∧ x.pc = .sendUnlocked ∧ x.conn = c ∧ w.target ≤ x.head) ∨
+    (∃ e ∈ s.upd, e.1 = c ∧ w.target ≤ e.2) ∨
+    (∃ h, (s.run = .nWant c h ∨ s.run = .nCheck c h) ∧ w.target ≤ h) := by
+  have hW := (reachable_woken (v := fixed) rfl rfl rfl hr).1
+  have hNS := noSendLocked_of (v := fixed) rfl hr
+  rcases hW i w c hw hsel hreg hb hle with h1 | ⟨j, x, hx, hp, hc, ht⟩ | ⟨e, he, hc, ht⟩ | h4
+  · simp only [Bool.or_eq_true] at h1
+    rcases h1 with (h1 | h1) | h1
+    · left
+      unfold bufGe at h1
+      split at h1
+      · rename_i u rest hbuf; exact ⟨u, by rw [hbuf]; simp, by simpa using h1⟩
+      · cases h1
+    · obtain ⟨sw, h0, h', todo, hrun, hle'⟩ := carriedGe_spec h1
+      exact Or.inr (Or.inl ⟨sw, h0, h', todo, hrun, hle'⟩)
+    · unfold preGe at h1
+      split at h1
+      · rename_i sw h0 todo hrun
+        simp only [Bool.and_eq_true, decide_eq_true_eq] at h1
+        exact Or.inr (Or.inr (Or.inl ⟨sw, h0, todo, hrun, h1.1, h1.2⟩))
+      · rename_i sw h0 h' x todo hrun
+        simp only [Bool.and_eq_true, decide_eq_true_eq] at h1
+        exact Or.inr (Or.inr (Or.inr (Or.inl ⟨sw, h0, h', x, todo, hrun, h1.1, h1.2⟩)))
+      · cases h1
+  · rcases hp with hp | hp
+    · exact Or.inr (Or.inr (Or.inr (Or.inr (Or.inl ⟨j, x, hx, hp, hc, ht⟩))))
+    · exact absurd hp (hNS j x hx)
+  · exact Or.inr (Or.inr (Or.inr (Or.inr (Or.inr (Or.inl ⟨e, he, hc, ht⟩)))))
+  · unfold pendRun at h4
+    split at h4
+    · rename_i c' h0 hrun
+      simp only [Bool.and_eq_true, beq_iff_eq, decide_eq_true_eq] at h4
+      exact Or.inr (Or.inr (Or.inr (Or.inr (Or.inr (Or.inr ⟨h0, Or.inl (by rw [hrun, h4.1]), h4.2⟩)))))
+    · rename_i c' h0 hrun
+      simp only [Bool.and_eq_true, beq_iff_eq, decide_eq_true_eq] at h4
+      exact Or.inr (Or.inr (Or.inr (Or.inr (Or.inr (Or.inr ⟨h0, Or.inr (by rw [hrun, h4.1]), h4.2⟩)))))
+    · cases h4
+
+/-- **lost_wakeup_switch_witness**: the code before the notify-on-switch repair. A waiter for seqno 8 registers while
+the best connection 0 is at 5; connection 1 is at 9; connection 0 dies and a refresh switches to connection 1.
+Afterwards the waiter is registered and in its select, the best connection is beyond its target, and NOTHING is in
+its channel or on its way: the invariant of `no_lost_wakeup` fails (the waiter is woken only by connection 1's next
+head). Replayed on Go by `go.wait.script best-ping 5/9 0 w:0:8:L t:2:1.1`. -/
+def lostWakeupTrace : List Action :=
+  [.wLock 0, .wSub 0, .setAlive 0 false, .tick, .ubLock, .ubRead, .ubRead, .ubRead, .ubSel, .ubSel, .ubSet]
+
+theorem lost_wakeup_switch_witness :
+    let r := runTrace ⟨true, true, true, false, true⟩ (mkInit [5, 9] (some 0) [8] []) lostWakeupTrace
+    r.map (fun s => (s.best, s.heads)) = some (some 1, [5, 9]) ∧
+    r.map (fun s => (s.run == .idle, s.upd.length, s.setters.length)) = some (true, 0, 0) ∧
+    r.map (fun s => s.waiters.map (fun w => (w.pc == .sel, w.wid, w.buf.length, w.target))) = some [(true, 1, 0, 8)] := by
+  refine ⟨by decide, by decide, by decide⟩
 
 /-- **wait_success_spec** (liveness of the repaired protocol under explicit fairness). Take any infinite execution
 of the repaired model (any interleaving of any number of waiters, SetMasterHead callers, ticks, liveness changes) in
